@@ -1,7 +1,9 @@
 """Per-property registry: which bounded models are checked and which scenario families are validated."""
+import random
 import fam_shapes as FS
 import fam_engine as FE
 import fam_model as FM
+import fam_real as FR
 
 COMMON_ASSUMPTIONS = [
     "TLC / SANY and the CommunityModules Json reader are trusted",
@@ -85,6 +87,10 @@ PROPERTIES = {
             {"name": "reduce_reshape_pointwise", "cases": FS.c07_cases(tier, seed), "exhaustive": True,
              "what": "all shapes rank<=4 sizes<=3 x sum(k) for every k, sum_all, reshape to every factorisation and to refused targets, neg/scale/powf(n)/reciprocal/relu on dyadic values",
              "require": {"judged": 3000, "refusals": 300}},
+            {"name": "pointwise_real", "cases": FR.real_op_cases(tier, seed + 1), "spec": "TraceReal", "real": True,
+             "mask": {"real-value", "dims", "unexpected-panic", "values"},
+             "what": "real domain: ln, exp, sigmoid, softmax (= exp / sum of exp over the last dimension), powf with non-integer exponents, reciprocal on random real values",
+             "require": {"real_checked": 5000}},
         ],
         "rule": "a case = one shape with all reductions and point-wise operations, or one shape with its reshape targets; distinct by program hash",
     },
@@ -113,11 +119,15 @@ PROPERTIES = {
     "C02": {
         "level_text": "TensorCore!Vjp defines the transpose-Jacobian of every operation from its forward definition (LinVjp: <seed, F(e_j)> on basis vectors for every operation linear in the differentiated operand; a table of scalar partials for the point-wise rest); TLC evaluates it for each operation x parameterisation x broadcast pattern x tracked subset with non-uniform (prime) seeds and the trace specification requires the gradients the real crate deposits to equal it bit for bit",
         "level_note": TRACE_NOTE + "; transcendental operations (ln, exp, sigmoid, softmax, non-integer powf, general division) are judged in the real domain through spec-generated symbolic definitions",
-        "technique": "TLA+ spec (definition-derived VJPs) as case oracle + TLC trace validation of executions of the real crate",
+        "technique": "TLA+ spec (definition-derived VJPs, checked against dual numbers by TLC) as case oracle + TLC trace validation of executions of the real crate",
+        "mc": lambda tier: [mc("MC_Rules_quick" if tier == "quick" else "MC_Rules_thorough", module="MC_Rules", workers=4)],
         "families": lambda tier, seed: [
             {"name": "single_op_vjp", "cases": FE.c02_cases(tier, seed),
              "what": "one operation per case, backward with a prime-valued seed, every deposited gradient compared: element-wise ops over broadcast pairs and tracked subsets, neg/scale/powf(-2..4)/reciprocal/relu/sum(k)/reshape, matmul (flags, additive term, leading patterns, rank-1 forms), conv (strides 1..3, batches), user operations",
              "require": {"judged": 1500, "passes": 1500}},
+            {"name": "single_op_vjp_real", "cases": FR.real_op_cases(tier, seed), "spec": "TraceReal", "real": True,
+             "what": "real domain: ln, exp, sigmoid, softmax, reciprocal, powf with exponents 2.5 / 0.5 / -1.5 / integers, general division and the exact operations on random real values; forward value and every gradient compared through spec-generated terms (tolerance 64 ulp of the term magnitude)",
+             "require": {"passes": 400, "real_checked": 5000}},
         ],
         "rule": "a case = one operation with one parameterisation, operand shapes, tracked subset and seed; distinct by program hash",
     },
@@ -126,13 +136,17 @@ PROPERTIES = {
         "level_note": ENGINE_NOTE,
         "technique": "TLC model checking of AutodiffImpl against AutodiffAbs + TLC trace validation of spec-generated and random programs run on the real crate",
         "mc": lambda tier: [mc("MC_Engine_p1" if tier == "quick" else "MC_Engine_t3"),
-                            mc("MC_Rules_quick" if tier == "quick" else "MC_Rules_thorough", module="MC_Rules")],
+                            ],
         "families": lambda tier, seed: [
             tlc_family("tlc_graphs", "GenEngine_pass", "C01", limit=2500 if tier == "quick" else 30000, seed=seed,
                        mask=M_GRAD, exhaustive=True, require={"passes": 1000}),
             {"name": "random_programs", "cases": FE.random_cases(seed, 1200 if tier == "quick" else 12000), "mask": M_GRAD,
              "what": "seeded random programs over add/sub/mul/div/axpy/neg/scale/powf/sum/reshape/matmul/relu/user ops with broadcasting, clones, drops, flag changes, several passes and data-dependent branches (cmp / when)",
              "require": {"passes": 1000}},
+            {"name": "real_programs", "cases": FR.real_program_cases(tier, seed), "spec": "TraceReal", "real": True,
+             "mask": M_GRAD | {"real-value"},
+             "what": "real domain: random programs of up to 8 operations mixing exp, ln, sigmoid, softmax, division, powf, reciprocal with the exact operations, one or two passes",
+             "require": {"passes": 150, "real_checked": 2000}},
         ],
         "rule": "a case = one program (graph construction + passes); distinct by program hash; non-trivial = contains at least one backward pass whose gradients are compared",
     },
@@ -266,6 +280,10 @@ PROPERTIES = {
              "mask": M_UPD | M_GRAD | {"loss", "values", "dims", "unexpected-panic", "into_vec-should-succeed"},
              "what": "dense stacks (sizes 1..2, none/relu) and conv+dense stacks trained for 1..3 iterations with dyadic learning rates on unbatched / batched inputs with changing batch sizes; parameters observed through a delegating Layer wrapper; ownership of the previous iteration's input and old parameters probed after the next forward",
              "require": {"updates": 100, "passes": 100, "owned": 100}},
+            {"name": "training_loops_real", "cases": FR.real_model_cases(tier, seed) + FR.real_model_cases(tier, seed + 9, iters=(30, 50), n=3 if tier == "quick" else 12),
+             "spec": "TraceReal", "real": True, "mask": {"real-value", "dims", "tracked-flag", "grad-presence", "unexpected-panic", "update-dims"},
+             "what": "real domain: dense stacks with sigmoid / relu hidden layers, softmax + cross-entropy or mse, learning rate 0.1, 2..6 iterations and long runs of 30..50 iterations with changing batch sizes; every iteration is judged from the parameters observed before it (loss and every parameter, 64 ulp of the term magnitude)",
+             "require": {"updates": 150, "real_checked": 3000}},
         ],
         "rule": "a case = one training run; distinct by program hash",
     },
@@ -279,7 +297,34 @@ PROPERTIES = {
              "mask": {"values", "dims", "loss", "expected-refusal", "unexpected-panic", "layer-parameter-dims", "equality", "tracked-flag"},
              "what": "dense layers 1..3 x 1..3 with none/relu on [n], [1,n], [B,n], [2,2,n] inputs and a refused size; conv layers over counts, depths, filter sizes, strides and batches; mse on 8 shapes; models of 1..3 layers compared with their layer-by-layer composition; Model::backward's value",
              "require": {"judged": 500, "refusals": 10}},
+            {"name": "layers_costs_real", "cases": FR.real_layer_cases(tier, seed), "spec": "TraceReal", "real": True,
+             "mask": {"real-value", "dims", "unexpected-panic", "tracked-flag"},
+             "what": "real domain: dense layers with sigmoid / softmax / relu / no activation, conv layers with sigmoid / relu, cross-entropy = -target * ln(output) / leading dimension and mse on softmax outputs, with their sums",
+             "require": {"real_checked": 1000}},
         ],
         "rule": "a case = one layer / cost / model configuration; distinct by program hash",
+    },
+    "C19": {
+        "level_text": "The same specification judges the f32 build: the executor is rebuilt with --features f32 and the exact-domain families of C01-C07 are re-run bit for bit with the specification's magnitude guard lowered to 2^22 (every intermediate exactly representable in a 24-bit significand), so dims, tracking, refusals and values must be identical to what the f64 build is required to produce; the real-domain families are re-run with the terms evaluated in f64 and a tolerance of 64 single-precision ulps of the term magnitude",
+        "level_note": TRACE_NOTE + "; 'agreeing with the double-precision reference' is decided against the specification's value (exact, or the f64 evaluation of the defining term), not against a second run of the library",
+        "technique": "TLC trace validation of the f32 build against the same TLA+ specification (exact domain bit for bit, real domain through terms)",
+        "mc": lambda tier: [mc("MC_Engine_p1")],
+        "families": lambda tier, seed: [
+            {"name": "f32_elementwise", "cases": random.Random(seed).sample(FS.c04_cases("quick", seed), 2500 if tier == "quick" else 9000), "f32": True,
+             "what": "C04 family (broadcast pairs, refusals) on the f32 build", "require": {"judged": 1000, "refusals": 500}},
+            {"name": "f32_shapes", "f32": True,
+             "cases": random.Random(seed).sample(FS.c05_cases("quick", seed), 600) + random.Random(seed).sample(FS.c06_cases("quick", seed), 500)
+                      + FS.c07_cases("quick", seed) + FS.c16_cases("quick", seed)[::3],
+             "what": "C05 / C06 / C07 / C16 families on the f32 build", "require": {"judged": 2000}},
+            {"name": "f32_gradients", "f32": True,
+             "cases": random.Random(seed).sample(FE.c02_cases("quick", seed), 1200) + FE.random_cases(seed + 2, 500 if tier == "quick" else 4000) + FE.c03_cases("quick", seed)[::2],
+             "what": "C02 / C01 / C03 families on the f32 build", "require": {"passes": 1000}},
+            {"name": "f32_real", "f32": True, "spec": "TraceReal", "real": True,
+             "cases": FR.real_op_cases(tier, seed, f32=True) + FR.real_program_cases(tier, seed, f32=True)
+                      + FR.real_layer_cases(tier, seed, f32=True) + FR.real_model_cases(tier, seed, f32=True),
+             "what": "real-domain families (transcendental operations, programs, layers, training loops) on the f32 build, tolerance 64 * 2^-23 * magnitude",
+             "require": {"real_checked": 8000}},
+        ],
+        "rule": "a case = one program of the C01-C07 spaces run on the f32 build; distinct by program hash",
     },
 }
